@@ -29,7 +29,7 @@ EXPLANATION = (
     ' (6) the MultiPV count that indexes / offsets the root list or is handed on with it is min(.., rootMoves.size()) at every use and the list is not resized after the clamp.'
     ' Added later; (7) the text printed for a move (bestmove, ponder, pv, currmove) is its UCI form: the suffix SearchListener::moveToString writes for each promotion piece, obtained by interpreting the printer for every promotion code, is the letter uciStringToMove reads back as that piece, and the listener formats moves only through the checked printers.'
     ' Added later; (8) MoveList::filter decides membership in the searchmoves list by move equality or by every field Move::operator== compares.'
-    ' Added later; (9) in the multi-PV report the entry just searched is printed under a not-yet-printed flag and every other entry where its index differs from it. (10) = C04.1: every checkmate score of negaScout / quiesce is \'mated in 0\' of the one linear family that notifyPV, the hash table and the 50-move margin decode.')
+    ' Added later; (9) in the multi-PV report the entry just searched is printed under a not-yet-printed flag and every other entry where its index differs from it. (10) = C04.1: every checkmate score of negaScout / quiesce is \'mated in 0\' of the one linear family that notifyPV, the hash table and the 50-move margin decode. (11) = C04.9 the ABDADA control value BUSY is never read as a score.')
 UNDECIDED = ('that the chosen move is good; playability of PVs beyond the validated-prefix rule; MultiPV distinctness by value; score '
              'ranges (see C04 for the mate-distance encoding).')
 ASSUMPTIONS = ['MoveGen::pseudoLegalMoves + removeIllegal produce exactly the legal moves (property C01)',
@@ -63,6 +63,8 @@ def run(fb, rep, tier):
     # margin decode (shared with C04.1)
     from . import C04
     C04.c1_encoding(fb, rep, 'C03.10')
+    # .11 the ABDADA control value BUSY never reaches a place where it is read as a score (shared with C04.9)
+    C04.c9_busy_is_not_a_score(fb, rep, 'C03.11')
 
 
 # ----------------------------------------------------------------------------- .1
